@@ -200,7 +200,15 @@ namespace nmtools::array
                 // reduce all to single scalar
 
                 // vertical op
-                auto reg = op.set1(0);
+                // NOTE: start from the identity of the op (e.g. 1 for multiply), not always zero
+                auto reg = op.set1([&]()->element_type{
+                    using op_type = meta::remove_cvref_t<decltype(view.op)>;
+                    if constexpr (meta::has_identity_v<op_type>) {
+                        return view.op.identity();
+                    } else {
+                        return 0;
+                    }
+                }());
                 for (size_t i=0; (i+N)<=size; i+=N) {
                     const auto operand = op.loadu(&inp_data_ptr[i]);
                     reg = op.eval(reg,operand);
